@@ -45,7 +45,7 @@ def from_max_simplices(SC):
     Hypergraph
 
     """
-    if type(SC) != SimplicialComplex:
+    if not isinstance(SC, SimplicialComplex):
         raise XGIError("The input must be a SimplicialComplex")
 
     max_simplices = SC.edges.maximal()
@@ -78,6 +78,6 @@ def k_skeleton(SC, order):
     """
     from .higher_order_network import cut_to_order
 
-    if type(SC) != SimplicialComplex:
+    if not isinstance(SC, SimplicialComplex):
         raise XGIError("The input must be a SimplicialComplex")
     return cut_to_order(SC, order)
